@@ -110,8 +110,24 @@ func (c17) Gen(r *sim.Rand, c *sim.Case, tier string) {
 	}
 	var setup []sim.Op
 	ndocs := r.Range(1, 2)
+	var doc0 []sim.Op
 	for s := 0; s < ndocs; s++ {
-		setup = append(setup, c17BaseDocOps(r, s, Wild && r.Bool())...)
+		if s == 1 && r.Chance(0.4) {
+			// a revision of document 0: the same paragraphs, word for word, but another table and other formatting (what a template
+			// looks like after its author reworked the layout); loaded under the name the first one was loaded under
+			for _, op := range doc0 {
+				op.D = 1
+				setup = append(setup, op)
+			}
+			setup = append(setup, sim.Op{K: "t.new", D: 1, I: []int{2, 3, 6000, 0, 1}, S: []sim.Str{"Quantity", "Unit price {{v1}}", "Sum", "{{n}}", "x", "y"}},
+				sim.Op{K: "p.bold", D: 1, I: []int{0, 1}}, sim.Op{K: "p.align", D: 1, I: []int{0, 2}})
+			continue
+		}
+		ops := c17BaseDocOps(r, s, Wild && r.Bool())
+		if s == 0 {
+			doc0 = ops
+		}
+		setup = append(setup, ops...)
 	}
 	for i := 0; i < 3; i++ {
 		d := tg.Data()
@@ -153,15 +169,26 @@ func (c17) Gen(r *sim.Rand, c *sim.Case, tier string) {
 		setup = append(setup, sim.Op{K: "e.loaddoc", I: []int{4, r.Intn(ndocs)}})
 	}
 	c.Tasks = [][]sim.Op{setup}
+	// sources loaded earlier are loaded again unchanged now and then (a program that reloads its templates): what such a load
+	// resolves - the parent - is what the cache holds at that moment
+	var usedB, usedChildB []string
+	again := func(used *[]string, fresh func() string) string {
+		if len(*used) > 0 && r.Chance(0.4) {
+			return (*used)[r.Intn(len(*used))]
+		}
+		s := fresh()
+		*used = append(*used, s)
+		return s
+	}
 	for t := 0; t < k; t++ {
 		var ops []sim.Op
 		n := r.Range(3, 12)
 		for len(ops) < n {
 			switch x := r.Intn(20); {
 			case x < 3:
-				ops = append(ops, load(2, baseB()))
+				ops = append(ops, load(2, again(&usedB, baseB)))
 			case x < 5:
-				ops = append(ops, load(3, childB()))
+				ops = append(ops, load(3, again(&usedChildB, childB)))
 			case x < 7:
 				ops = append(ops, sim.Op{K: "e.loaddoc", I: []int{[]int{4, 4, 2}[r.Intn(3)], r.Intn(ndocs)}})
 			case x < 14:
